@@ -16,11 +16,14 @@ in-range curve points, the curve equation behind `contains_point` and the x-coor
 structure RecoverOpsCorrect (ops : PointOps P) (G : 𝔾) (den : P → 𝔾) (xc : 𝔾 → Option ℤ) (valid : P → Prop) : Prop
     extends PointOpsCorrect ops G den xc valid where
   containsPoint_iff : ∀ x y, ops.containsPoint x y = true ↔ OnC ops.p ops.a ops.b x y
-  /-- a reduced pair on the curve makes a valid, non-zero point object with that abscissa -/
+  /-- a reduced pair on the curve **whose abscissa is that of a multiple of G** makes a valid, non-zero point object with
+  that abscissa (no cofactor assumption: such a pair is ±(k•G)) -/
   mkPoint_valid : ∀ x y, 0 ≤ x → x < ops.p → 0 ≤ y → y < ops.p → ops.containsPoint x y = true →
+    (∃ k : ℤ, xc (k • G) = some x) →
     valid (ops.mkPoint x y) ∧ den (ops.mkPoint x y) ≠ 0 ∧ xc (den (ops.mkPoint x y)) = some x
   /-- opposite ordinates: opposite points -/
   mkPoint_neg : ∀ x y y', 0 ≤ x → x < ops.p → 0 ≤ y → y < ops.p → 0 ≤ y' → y' < ops.p → ops.containsPoint x y = true →
+    (∃ k : ℤ, xc (k • G) = some x) →
     (y + y') % ops.p = 0 → den (ops.mkPoint x y') = - den (ops.mkPoint x y)
   /-- two points with the same abscissa are equal or opposite -/
   xc_inj : ∀ R R', R ≠ 0 → xc R = xc R' → R' = R ∨ R' = -R
